@@ -346,6 +346,155 @@ Definition qi_output (addr : bytes) (datalen : N) (l : location) : qi_out :=
   else QUtxo.
 
 (* ------------------------------------------------------------------ *)
+(* Addresses handed out from STORED / CACHED bytes.
+   core/types/transaction_signing.go: Sender, SignerV1.Sender, SignerV1.Equal, sigCache;
+   core/types/transaction.go: Transaction.From, SetFrom, Hash, FromChain, AsMessage.
+   The sender cache of a *Transaction holds (signer, 20 bytes).  Signer.Equal compares the chain
+   id ONLY, so an entry written by a signer of one location is served to signers of every other
+   location of the same chain; the model keeps the filling signer's location in the state
+   (as the code does) so that the theorems can say that no result depends on it. *)
+Inductive tx_kind := TQuai | TEtx | TQi.
+
+Record txobj := mk_tx {
+  tk : tx_kind;
+  tchain : N;                    (* tx.ChainId() *)
+  tdigest : option bytes;        (* Keccak256(pubkey recovered from (V,R,S)); None: signature values invalid *)
+  tetx_raw : bytes;              (* ExternalTx only: wire bytes of etx_sender ... *)
+  tetx_loc : location            (* ... and the location the transaction object was decoded at *)
+}.
+
+(* the Address object stored in ExternalTx.Sender by Transaction.ProtoDecode *)
+Definition etx_stored (t : txobj) : res := wire_to_address (tetx_raw t) (tetx_loc t).
+
+Record sstate := mk_st {
+  st_cache : option (N * location * bytes);   (* tx.from: (signer chain id, signer location, from) *)
+  st_hashed : bool;                           (* tx.hash memoised *)
+  st_fromchain : option location              (* tx.fromChain memoised *)
+}.
+Definition st_init : sstate := mk_st None false None.
+Definition set_cache (s : sstate) (c : option (N * location * bytes)) : sstate :=
+  mk_st c (st_hashed s) (st_fromchain s).
+Definition set_hashed (s : sstate) : sstate := mk_st (st_cache s) true (st_fromchain s).
+Definition set_fromchain (s : sstate) (l : location) : sstate := mk_st (st_cache s) (st_hashed s) (Some l).
+
+(* SignerV1.Sender (no cache): ETX -> stored object; Qi -> error; chain id mismatch -> error;
+   recoverPlain: invalid signature -> error, else BytesToAddress(Keccak256(pub[1:])[12:], s.nodeLocation) *)
+Definition signer_sender (t : txobj) (chain : N) (l : location) : res :=
+  match tk t with
+  | TEtx => etx_stored t
+  | TQi => Err
+  | TQuai =>
+      if negb (tchain t =? chain) then Err
+      else match tdigest t with
+           | None => Err
+           | Some d => digest_to_address d l
+           end
+  end.
+
+(* types.Sender(signer, tx) *)
+Definition sender_step (t : txobj) (s : sstate) (chain : N) (l : location) : res * sstate :=
+  match tk t with
+  | TEtx => (etx_stored t, s)
+  | TQi => (Err, s)
+  | TQuai =>
+      let miss :=
+        match signer_sender t chain l with
+        | Err => (Err, s)
+        | r => (r, set_cache s (Some (chain, l, res_bytes r)))        (* addr.Bytes20() *)
+        end in
+      match st_cache s with
+      | Some (c, _, from) =>
+          if c =? chain                                               (* sigCache.signer.Equal(signer) *)
+          then (bytes20_to_address from l, s)                         (* re-wrapped at signer.Location() *)
+          else miss
+      | None => miss
+      end
+  end.
+
+(* Transaction.Hash() without location argument: a QuaiTx recovers its sender through
+   Sender(NewSigner(tx.ChainId(), Location{0,0}), tx); on error the hash is not memoised.
+   Transaction.Hash(r, z): no sender recovery. *)
+Definition hash_step (t : txobj) (s : sstate) (withloc : bool) : sstate :=
+  if st_hashed s then s
+  else match tk t with
+       | TQuai =>
+           if withloc then set_hashed s
+           else match sender_step t s (tchain t) [0; 0] with
+                | (Err, s') => s'
+                | (_, s') => set_hashed s'
+                end
+       | _ => set_hashed s
+       end.
+
+Inductive sop :=
+| SSender (chain : N) (l : location)                (* types.Sender(NewSigner(chain, l), tx) *)
+| SDirect (chain : N) (l : location)                (* NewSigner(chain, l).Sender(tx) *)
+| SFrom (l : location)                              (* tx.From(l) *)
+| SSetFrom (a : bytes) (chain : N) (l : location)   (* tx.SetFrom(<address with bytes a>, NewSigner(chain, l)) *)
+| SHash (withloc : bool)                            (* tx.Hash() / tx.Hash(r, z) *)
+| SAsMsg (chain : N) (l : location)                 (* tx.AsMessage(NewSigner(chain, l), nil): From() / ETXSender() *)
+| SFromChain (l : location).                        (* tx.FromChain(l) *)
+
+Inductive sobs :=
+| SAddr (class : N) (a : bytes) (iquai iqi : bool)
+| SErr            (* error / panic *)
+| SNil            (* From: nil pointer *)
+| SUnit
+| SLoc (l : location).
+
+Definition sobs_of_res (r : res) : sobs :=
+  match r with
+  | Internal a => SAddr 0 a (negb (is_qi a)) (negb (is_quai a))
+  | External a => SAddr 1 a false false
+  | Err => SErr
+  end.
+
+(* Transaction.AsMessage on an ExternalTx sets msg.from = ZeroAddress(s.Location()) before it reads the
+   stored sender: Location.BytePrefix indexes loc[1], i.e. panics for a prime / region signer *)
+Definition asmsg_obs (t : txobj) (l : location) (r : res) : sobs :=
+  match tk t with
+  | TEtx => if Nat.ltb (length l) 2 then SErr else sobs_of_res r
+  | _ => sobs_of_res r
+  end.
+
+Definition sop_step (t : txobj) (s : sstate) (o : sop) : sobs * sstate :=
+  match o with
+  | SSender chain l => let (r, s') := sender_step t s chain l in (sobs_of_res r, s')
+  | SDirect chain l => (sobs_of_res (signer_sender t chain l), s)
+  | SFrom l =>
+      match st_cache s with
+      | Some (_, _, from) => (sobs_of_res (bytes20_to_address from l), s)
+      | None => (SNil, s)
+      end
+  | SSetFrom a chain l => (SUnit, set_cache s (Some (chain, l, to20 a)))
+  | SHash w => (SUnit, hash_step t s w)
+  | SAsMsg chain l =>
+      let s1 := hash_step t s false in
+      let (r, s2) := sender_step t s1 chain l in (asmsg_obs t l r, s2)
+  | SFromChain l =>
+      match st_fromchain s with
+      | Some x => (SLoc x, s)
+      | None =>
+          match tk t with
+          | TEtx => let x := location_of (res_bytes (etx_stored t)) in (SLoc x, set_fromchain s x)
+          | _ =>
+              match sender_step t s (tchain t) l with
+              | (Err, _) => (SErr, s)                                  (* panic("failed to get transaction sender!") *)
+              | (r, s') => let x := location_of (res_bytes r) in (SLoc x, set_fromchain s' x)
+              end
+          end
+      end
+  end.
+
+Fixpoint run_ops (t : txobj) (s : sstate) (ops : list sop) : list sobs * sstate :=
+  match ops with
+  | [] => ([], s)
+  | o :: ops' =>
+      let (x, s1) := sop_step t s o in
+      let (xs, s2) := run_ops t s1 ops' in (x :: xs, s2)
+  end.
+
+(* ------------------------------------------------------------------ *)
 (* correspondence cases *)
 
 Inductive input :=
@@ -369,7 +518,8 @@ Inductive input :=
 | IGuard (a : bytes) (l : location)
 | IGrind (l : location) (block_number gas cost : N) (prefixes : list (N * N)) (final : bytes)
 | ICreate (l : location) (d0 : bytes) (block_number gas cost : N) (prefixes : list (N * N)) (final : bytes)
-| IQiOut (addr : bytes) (datalen : N) (l : location).
+| IQiOut (addr : bytes) (datalen : N) (l : location)
+| ISender (t : txobj) (ops : list sop).       (* one history on one *Transaction object *)
 
 Inductive obs :=
 | OAddr (class : N) (a : bytes) (zone : location) (qi iquai iqi : bool)   (* class 0 = internal, 1 = external *)
@@ -377,7 +527,8 @@ Inductive obs :=
 | OBytes (a : bytes)
 | OBool (b : bool)
 | OGrind (r : grind_res)
-| OQi (q : qi_out).
+| OQi (q : qi_out)
+| OSeq (xs : list sobs).
 
 Definition obs_of_res (r : res) : obs :=
   match r with
@@ -429,6 +580,7 @@ Definition eval (i : input) : obs :=
       | GErr => OErr
       end
   | IQiOut addr dl l => OQi (qi_output addr dl l)
+  | ISender t ops => OSeq (fst (run_ops t st_init ops))
   end.
 
 Definition grind_res_eqb (a b : grind_res) : bool :=
@@ -444,6 +596,21 @@ Definition qi_out_eqb (a b : qi_out) : bool :=
   | _, _ => false
   end.
 
+Definition sobs_eqb (x y : sobs) : bool :=
+  match x, y with
+  | SAddr c a iq iqi, SAddr c' a' iq' iqi' => (c =? c') && keqb a a' && Bool.eqb iq iq' && Bool.eqb iqi iqi'
+  | SErr, SErr | SNil, SNil | SUnit, SUnit => true
+  | SLoc a, SLoc b => keqb a b
+  | _, _ => false
+  end.
+
+Fixpoint sobs_list_eqb (xs ys : list sobs) : bool :=
+  match xs, ys with
+  | [], [] => true
+  | x :: xs', y :: ys' => sobs_eqb x y && sobs_list_eqb xs' ys'
+  | _, _ => false
+  end.
+
 Definition obs_eqb (x y : obs) : bool :=
   match x, y with
   | OAddr c a z q iq iqi, OAddr c' a' z' q' iq' iqi' =>
@@ -453,6 +620,7 @@ Definition obs_eqb (x y : obs) : bool :=
   | OBool a, OBool b => Bool.eqb a b
   | OGrind a, OGrind b => grind_res_eqb a b
   | OQi a, OQi b => qi_out_eqb a b
+  | OSeq a, OSeq b => sobs_list_eqb a b
   | _, _ => false
   end.
 
